@@ -36,6 +36,25 @@ TCfg == /\ Ev.e = "Cfg" /\ cfg' = Ev /\ surv' = <<>> /\ allocAt' = <<>> /\ ntr' 
 
 NodeIt(n) == LET x == CHOOSE y \in DRange(cfg.nodes) : y.name = n IN IF "it" \in DOMAIN x.labels THEN {x.labels["it"]} ELSE {}
 KnownNode(n) == \E y \in DRange(cfg.nodes) : y.name = n
+(* A claim the cluster has allocated whose consumers (status.reservedFor) are ALL pods of nodes that are being removed     *)
+(* (marked for deletion / deleting) migrates with them: the pass re-allocates it and its old devices are free again, so the  *)
+(* oracle does not count its old allocation.                                                                               *)
+PodNamed(ns, n) == CHOOSE x \in DRange(cfg.pods) : x.ns = ns /\ x.name = n
+Leaving(ns, n) == /\ \E x \in DRange(cfg.pods) : x.ns = ns /\ x.name = n
+                  /\ LET nd == PodNamed(ns, n).node IN nd # "" /\ KnownNode(nd) /\ LET y == CHOOSE z \in DRange(cfg.nodes) : z.name = nd IN y.marked \/ y.deleting
+Migrating(c) == c.alloc # <<>> /\ c.reserved # <<>> /\ c.others = 0 /\ \A i \in DOMAIN c.reserved : Leaving(c.ns, c.reserved[i])
+EffDra == [cfg.dra EXCEPT !.claims = [i \in DOMAIN cfg.dra.claims |-> IF Migrating(cfg.dra.claims[i]) THEN [cfg.dra.claims[i] EXCEPT !.alloc = <<>>] ELSE cfg.dra.claims[i]]]
+(* Witness class of known finding F-C17-1: a published device on which EVERY pod consumer (over all claims holding it) is   *)
+(* leaving, although a claim that does not migrate (no pod consumers at all, or a non-pod consumer) holds it too.  IgnDra      *)
+(* additionally forgets the allocations on such devices; a failure that disappears under IgnDra belongs to this class.         *)
+AllocKeys(c) == {<<c.alloc[i].driver, c.alloc[i].pool, c.alloc[i].device>> : i \in DOMAIN c.alloc}
+Mixed(k) == LET cs == {c \in DRange(cfg.dra.claims) : k \in AllocKeys(c)} IN
+            /\ \E c \in cs : ~Migrating(c)
+            /\ \E c \in cs : c.reserved # <<>>
+            /\ \A c \in cs : \A i \in DOMAIN c.reserved : Leaving(c.ns, c.reserved[i])
+IgnDra == [EffDra EXCEPT !.claims = [i \in DOMAIN EffDra.claims |-> IF \E k \in AllocKeys(EffDra.claims[i]) : Mixed(k)
+                                                                      THEN [EffDra.claims[i] EXCEPT !.alloc = <<>>] ELSE EffDra.claims[i]]]
+KnownClass == "allocation-forgotten-because-all-its-pod-consumers-are-leaving"
 ClaimsOfPod(p) == UNION {DRange(pc.claims) : pc \in {x \in DRange(cfg.dra.podClaims) : x.pod = p}}
 ClaimKey(p, c) == (CHOOSE x \in DRange(cfg.pods) : x.ns \o "/" \o x.name = p).ns \o "/" \o c
 
@@ -60,7 +79,7 @@ TResults ==
     /\ Ev.e = "Results"
     /\ IF ~HasDRA \/ Ev.dra = <<>> THEN UNCHANGED <<viol, stats>>
        ELSE LET recs == DRange(Ev.dra)
-                d == cfg.dra
+                d == EffDra
                 ids == {x.nodeclaim : x \in recs}
                 node(id) == (CHOOSE x \in recs : x.nodeclaim = id).node
                 sAll == [id \in ids |-> IF node(id) # "-" THEN (IF KnownNode(node(id)) THEN NodeIt(node(id)) ELSE {})
@@ -70,9 +89,12 @@ TResults ==
                 where(x) == IF x.node # "-" THEN x.node ELSE x.nodeclaim
             IN /\ viol' = viol
                     \o Chk(live = ids, "Drift_C17_NodeClaimWithoutSurvivors", "claim-allocated-for-unknown-or-dropped-nodeclaim")
-                    \o Chk(G_C17_DeviceExclusive(d, recs, s), "Inv_C17_DeviceExclusive", SigExclusive(d, recs, s))
-                    \o Chk(G_C17_SharedCapacity(d, recs, s), "Inv_C17_SharedCapacity", SigShared(d, recs, s))
-                    \o Chk(G_C17_Counters(d, recs, s), "Inv_C17_Counters", SigCounters(d, recs, s))
+                    \o Chk(G_C17_DeviceExclusive(d, recs, s), "Inv_C17_DeviceExclusive",
+                           IF G_C17_DeviceExclusive(IgnDra, recs, s) THEN KnownClass ELSE SigExclusive(d, recs, s))
+                    \o Chk(G_C17_SharedCapacity(d, recs, s), "Inv_C17_SharedCapacity",
+                           IF G_C17_SharedCapacity(IgnDra, recs, s) THEN KnownClass ELSE SigShared(d, recs, s))
+                    \o Chk(G_C17_Counters(d, recs, s), "Inv_C17_Counters",
+                           IF G_C17_Counters(IgnDra, recs, s) THEN KnownClass ELSE SigCounters(d, recs, s))
                     \o Flat([i \in DOMAIN Ev.dra |->
                           LET x == Ev.dra[i] IN
                           IF x.claim \notin DOMAIN allocAt \/ allocAt[x.claim].where # where(x) THEN <<V("Drift_C17_ClaimPlacementUnknown", "no-commit-event-for-claim")>>
